@@ -220,6 +220,7 @@ def c32(t):
     out = C.Outcome("C32", "model_checking", t, ["<ordinals::Rune as Display>::fmt", "<ordinals::Rune as FromStr>::from_str", "Rune::{is_reserved,reserved,commitment,RESERVED}"])
     out.assumptions = [E2_NOTE,
         "strings are explicit sequences of symbolic chars (any Unicode scalar) of a concrete length per query; String/Chars/write! are modelled as char lists",
+        "c32_rune_boundary_roundtrip is a concrete evaluation of the real Display/FromStr MIR at about 80 boundary values (machine widths, first/last name of every length), not a solver verdict over a range",
         "print->parse is decided only for names up to 5 letters (n <= 12356629): z3 and cvc5 do not finish the 128-bit base-26 identity for longer names; parse->value is decided for lengths 0..=29",
         "that distinct names denote distinct integers (uniqueness of bijective base-26 numerals) is used only through print(parse(s)) == s for short names",
         "SpacedRune Display/FromStr (spacer bitmasks) is NOT decided: CBMC does not finish SpacedRune::from_str even for 7 chars and the path count of the MIR engine grows as 1.6^len"]
@@ -234,8 +235,8 @@ def c25(t):
         "E2 obligations: Runestone::payload and Runestone::integers are overridden by 'the payload decodes to the symbolic integers i0..iN-1' (N <= 4 quick, <= 6 thorough; every u128 value); std HashMap/VecDeque/Vec are modelled as lists in the path state with lookups by symbolic key forking on equality",
         "the reference (harness/ordinals/runestone_h.rs: ref_message, ref_runestone) is written from docs/src/runes/specification.md over fixed arrays and is executed from its own MIR in the same engine; a counterexample is replayed natively by the cfg(vreplay) test vreplay_decipher (real decipher over a real script vs. the natively compiled reference)",
         "the byte stage is decided separately: LEB128 decoding of payloads <= 6 bytes by the Kani harness c25_integers_vs_reference_le6 (and all of C26); script -> payload assembly (bitcoin's Instructions iterator) is decided only in the thorough tier by c25_only_op_return_op13_outputs_yield (3-byte scripts) - longer scripts do not finish under CBMC",
-        "round trip: the real Runestone::encipher runs on a symbolic well-formed runestone of a fixed shape (which Option fields are present, 0-2 edicts; 6 shapes quick, +16 random shapes thorough); varint::encode_to_vec is replaced by 'append the integer' and the script builder is opaque, so the chain encipher -> integers -> decipher is decided at the integer level (bytes <-> integers: C26 and the Kani stage harness); well-formedness = what the decoder documents (divisibility <= 38, spacers <= MAX_SPACERS, symbol a char, ids with block 0 only as 0:0, edict outputs <= outputs, pointer < outputs, premine + cap*amount fits u128); the result must be the same runestone with edicts stably sorted by id; replayed natively through a real script by vreplay_roundtrip",
-        "NOT covered: round trips with 3+ edicts (sort stability beyond two elements), payloads split over several pushes, messages longer than 6 integers in the differential part"]
+        "round trip: the real Runestone::encipher runs on a symbolic well-formed runestone of a fixed shape (which Option fields are present, 0-3 edicts; 7 shapes quick, +16 random shapes thorough); varint::encode_to_vec is replaced by 'append the integer' and the script builder is opaque, so the chain encipher -> integers -> decipher is decided at the integer level (bytes <-> integers: C26 and the Kani stage harness); well-formedness = what the decoder documents (divisibility <= 38, spacers <= MAX_SPACERS, symbol a char, ids with block 0 only as 0:0, edict outputs <= outputs, pointer < outputs, premine + cap*amount fits u128); the result must be the same runestone with edicts stably sorted by id; replayed natively through a real script by vreplay_roundtrip",
+        "NOT covered: round trips with 4+ edicts, payloads split over several pushes, messages longer than 6 integers in the differential part"]
     run_e2(out, "C25", t, timeout=7200)
     f = "runestone_h.rs"
     specs = [dict(h="c25_integers_vs_reference_le6", file=f, bounds="every payload of 0..=6 symbolic bytes; unwind 8", claim="Runestone::integers == sequential LEB128 reference (values and count), Err exactly on a bad varint")]
